@@ -29,6 +29,8 @@ ASSUMPTIONS = ["numpy digitize/linspace semantics", "connectivity, splitting and
 def check(repo, col, tier):
     col.rule("R-C16-stale", "no must-stale read of a loop-assigned variable in the SWC helpers", 3)
     col.rule("R-C16-forms", "interpolation / centre / clipping / length conventions", 8)
+    col.rule("R-C16-split", "max_branch_len splitting, parent lookup and sorting keep sections, types and connectivity together", 8)
+    _split(repo, col)
     _stale(repo, col)
     _forms(repo, col)
 
@@ -259,18 +261,8 @@ def _forms(repo, col):
     ok = rr is not None and unparse(rr.value) == "np.asarray([radius_fns[b](range_) for b in branch_indices])"
     col.check(ok, R, fi, "branch b is evaluated with its own radius function at the centres", "radius_fns[b](range_) for b in branch_indices",
               f"radiuses is {unparse(rr.value) if rr else None}", node=rr or fi.node)
-    # ---- path lengths
-    fi = repo.func(CU, "_compute_pathlengths")
-    src = unparse(fi.node)
-    ok = "radius = coords_in_branch[0, 4]" in src and "dists = np.asarray([2 * radius])" in src
-    col.check(ok, R, fi, "a one-point section has length 2r (sphere of equal area as a cylinder)", "dists = [2 * radius]",
-              "the single-point convention (length = 2 * radius) is altered", node=fi.node)
-    sq = next((n for n in ast.walk(fi.node) if isinstance(n, ast.Call) and unparse(n.func).endswith("sqrt")), None)
-    ok = sq is not None and unparse(sq.args[0]).replace(" ", "") == "point_diffs[:,1]**2+point_diffs[:,2]**2+point_diffs[:,3]**2"
-    col.check(ok, R, fi, "segment length is the Euclidean distance of consecutive traced points (x, y, z columns)",
-              "sqrt(dx^2 + dy^2 + dz^2)", f"distance is {unparse(sq) if sq else None}", node=sq or fi.node)
-    ok = "point_diffs = np.diff(coords_in_branch, axis=0)" in src
-    col.check(ok, R, fi, "differences are taken between consecutive points of the branch", "np.diff(coords_in_branch, axis=0)", "diff altered", node=fi.node)
+    # ---- path lengths (on normal forms: helpers inlined, conditionals lifted; operand order free)
+    _pathlengths(repo, col)
     # ---- zero length, per-compartment length
     fi = repo.func(SW, "swc_to_jaxley")
     src = unparse(fi.node)
@@ -342,3 +334,284 @@ def _forms(repo, col):
         "cell.branch(indices).add_to_group(name)" in src
     col.check(ok, R, fi, "type groups partition the branches by SWC type (types > 5 become custom<k>)", "",
               "group assignment by type altered", node=fi.node)
+
+
+def _conjuncts(guards):
+    """Atomic conditions of a guard stack (conjunction): `and` flattened, loops dropped."""
+    out = []
+    todo = list(guards)
+    while todo:
+        g = todo.pop(0)
+        if g.op == "loop":
+            continue
+        if g.op == "bool" and g.name == "And":
+            todo = list(g.args) + todo
+            continue
+        out.append(g)
+    return out
+
+
+def _pathlengths(repo, col):
+    R = "R-C16-forms"
+    from sa.termalg import term_rat
+    from sa.algebra import Rat, Und
+    fi = repo.func(CU, "_compute_pathlengths")
+    ex = idx.expander(repo, fi)
+    vals = []
+    for s_ in ex.stores:
+        if s_.kind == "mcall" and s_.key.name == "append" and s_.value.op == "mcall" and len(s_.value.args) > 1:
+            v = idx.norm(repo, fi, s_.value.args[1])
+            stack = [v]
+            while stack:
+                x = stack.pop()
+                if x.op == "ifexp":
+                    stack += [x.args[1], x.args[2]]
+                else:
+                    vals.append((x, s_))
+    if not vals:
+        raise AnalysisError("_compute_pathlengths: no appended path lengths found")
+
+    def col_of(t):
+        """k if t is X[:, k] / X[0, k]"""
+        if t.op == "sub" and t.args[1].op == "tuple" and len(t.args[1].args) == 2 and t.args[1].args[1].op == "const":
+            return t.args[1].args[1].name
+        return None
+
+    # (a) one-point section: 2 * radius (column 4 of row 0)
+    one = None
+    for v, s_ in vals:
+        lst = T.find(v, lambda x: x.op == "list" and len(x.args) == 1)
+        two_r = lst.args[0] if lst is not None else v
+        if T.find(v, lambda x: x.op == "mcall" and x.name == "sqrt") is None:
+            try:
+                form = term_rat(two_r, lambda x: Rat.atom(f"col{col_of(x)}") if col_of(x) is not None else None)
+            except Und:
+                continue
+            one = (form, v, s_)
+    if one is None:
+        col.unk(R, fi, "a one-point section has length 2r", "no `2 * radius` value is appended", node=fi.node)
+    else:
+        form, v, s_ = one
+        col.check(form.eq(Rat.const(2) * Rat.atom("col4")), R, fi, "a one-point section has length 2r (sphere of equal area as a cylinder)",
+                  "2 * coords[0, 4]", f"the single-point length is {v.short(80)} = {form}: the convention is 2 * radius (column 4)", node=s_.node)
+    # (b) Euclidean distance between consecutive points
+    euc = None
+    for v, s_ in vals:
+        sq = T.find(v, lambda x: x.op == "mcall" and x.name == "sqrt")
+        if sq is not None:
+            euc = (sq, s_)
+    if euc is None:
+        col.bad(R, fi, "segment length is the Euclidean distance of consecutive traced points (x, y, z columns)",
+                "no sqrt(...) of coordinate differences is appended", node=fi.node)
+    else:
+        sq, s_ = euc
+        diffs = []
+
+        def leaf(x):
+            k = col_of(x)
+            if k is not None and x.args[0].op == "mcall" and x.args[0].name == "diff":
+                diffs.append(x.args[0])
+                return Rat.atom(f"d{k}")
+            return None
+        try:
+            form = term_rat(sq.args[1], leaf)
+            want = Rat.atom("d1").powi(2) + Rat.atom("d2").powi(2) + Rat.atom("d3").powi(2)
+            col.check(form.eq(want), R, fi, "segment length is the Euclidean distance of consecutive traced points (x, y, z columns)",
+                      "sqrt(dx^2 + dy^2 + dz^2) over columns 1, 2, 3", f"distance is sqrt({form}) (columns are type, x, y, z, radius)", node=s_.node)
+        except Und as e:
+            col.unk(R, fi, "segment length is the Euclidean distance", str(e), node=s_.node)
+        ok = bool(diffs) and all(d.kw.get("axis") is not None and d.kw["axis"].op == "const" and d.kw["axis"].name == 0 and
+                                 (len(d.args) < 3) for d in diffs)
+        col.check(ok, R, fi, "differences are taken between consecutive points of the branch", "np.diff(coords_in_branch, axis=0)",
+                  "coordinate differences are not first differences along the point axis", node=s_.node)
+    # (c) soma-to-neurite gap: the first point is replaced iff the branch starts at a soma point (type 1), continues with a
+    #     non-soma point, and the soma is a single point
+    gap = [s_ for s_ in ex.stores if s_.kind == "sub" and s_.key.op == "const" and s_.key.name == 0 and
+           s_.value.op == "sub" and s_.value.args[1].op == "const" and s_.value.args[1].name == 1]
+    if not gap:
+        col.bad(R, fi, "the distance from a single-point soma to the first neurite point is ignored",
+                "the statement that replaces the first point of such a branch vanished", node=fi.node)
+        return
+    atoms = set()
+    unknown = []
+    for g in _conjuncts(gap[0].guards):
+        k = None
+        if g.op == "param" and g.name == "is_single_point_soma":
+            k = "single_point_soma"
+        elif g.op == "cmp" and len(g.args) == 2:
+            def side(t):
+                t0 = t
+                while t0.op == "call" and t0.name == "int" and t0.args:
+                    t0 = t0.args[0]
+                if t0.op == "const":
+                    return repr(t0.name)
+                if t0.op == "sub" and t0.args[1].op == "const" and isinstance(t0.args[1].name, int) and col_of(t0.args[0]) == 0:
+                    return f"type[{t0.args[1].name}]"
+                if t0.op == "mcall" and t0.name == "len" or (t0.op == "call" and t0.name == "len"):
+                    return "len"
+                return None
+            l, r_ = side(g.args[0]), side(g.args[1])
+            if "len" in (l, r_):
+                continue  # the one-point case distinction
+            if l is not None and r_ is not None:
+                k = f"{l} {g.name} {r_}" if l <= r_ or g.name not in ("==", "!=") else f"{r_} {g.name} {l}"
+        if k is None:
+            unknown.append(g.short(60))
+        else:
+            atoms.add(k)
+    want = {"single_point_soma", "1 == type[0]", "1 != type[1]"}
+    if unknown:
+        col.unk(R, fi, "soma-gap condition", f"unrecognised conjuncts {unknown}", node=gap[0].node)
+    else:
+        col.check(atoms == want, R, fi, "the first point is replaced iff type[0] == 1, type[1] != 1 and the soma is a single point",
+                  str(sorted(atoms)),
+                  f"the soma-gap condition is {sorted(atoms)}, expected {sorted(want)}: sections that leave a non-soma neurite "
+                  f"(or a multi-point soma) lose their first traced step, so branch lengths come out too short", node=gap[0].node)
+
+
+def _split(repo, col):
+    R = "R-C16-split"
+    from sa.termalg import term_rat
+    from sa.algebra import Rat, Und
+    # ---- (1) _split_branch_equally: consecutive parts share exactly one traced point and together cover the branch
+    fi = repo.func(CU, "_split_branch_equally")
+    ex = idx.expander(repo, fi)
+    r = ex.returns[-1] if ex.returns else None
+    parts = {}
+
+    def leaf(x):
+        if (x.op == "binop" and x.name == "//") or (x.op in ("call", "mcall") and x.name == "len"):
+            if x.op == "binop":
+                return Rat.atom("n")
+        if x.op == "param" and x.name == fi.params[1]:
+            return Rat.atom("k")
+        if x.op == "elem":
+            return Rat.atom("i")
+        return None
+
+    def bounds(sl):
+        lo, hi, _ = sl.args
+        f = lambda b: None if (b.op == "const" and b.name is None) else term_rat(b, leaf)
+        return f(lo), f(hi)
+    try:
+        rng = None
+        # every slice of the section that ends up in the result, wherever it is built (appends, comprehension, `+`)
+        terms = list(ex.returns) + [s_.value for s_ in ex.stores if s_.value is not None]
+        seen = set()
+        for t_ in terms:
+            for x in t_.walk():
+                if x.op == "sub" and x.args[0].op == "param" and x.args[0].name == fi.params[0] and x.args[1].op == "slice" and x.key() not in seen:
+                    seen.add(x.key())
+                    lo, hi = bounds(x.args[1])
+                    kind = "first" if lo is None else ("last" if hi is None else "middle")
+                    if kind in parts and (repr(parts[kind]) != repr((lo, hi))):
+                        parts["conflict"] = (lo, hi)
+                    parts[kind] = (lo, hi)
+                    if kind == "middle":
+                        el = T.find(x.args[1], lambda y: y.op == "elem")
+                        rg = el.args[0] if el is not None else None
+                        if rg is not None and rg.op == "call" and rg.name == "range" and len(rg.args) == 2:
+                            rng = (term_rat(rg.args[0], leaf), term_rat(rg.args[1], leaf))
+        n, k, i = Rat.atom("n"), Rat.atom("k"), Rat.atom("i")
+        one = Rat.const(1)
+        if set(parts) != {"first", "middle", "last"} or rng is None:
+            col.unk(R, fi, "_split_branch_equally: first / middle / last parts", f"parts recognised: {sorted(parts)}", node=fi.node)
+        else:
+            ok = parts["first"][0] is None and parts["first"][1].eq(n) and parts["middle"][0].eq(i * n - one) and \
+                parts["middle"][1].eq((i + one) * n) and parts["last"][0].eq((k - one) * n - one) and parts["last"][1] is None and \
+                rng[0].eq(one) and rng[1].eq(k - one)
+            col.check(ok, R, fi, "parts are [0,n), [i*n-1,(i+1)*n) for i = 1..k-2, [(k-1)*n-1, end): neighbours share exactly one point",
+                      "each part starts at the last point of the previous one; the union is the whole section",
+                      f"parts are first {parts['first']}, middle {parts['middle']} for i in range{rng}, last {parts['last']}: consecutive "
+                      f"sub-branches must overlap in exactly one traced point (their connection) and cover every point", node=fi.node)
+    except (Und, AttributeError, IndexError) as e:
+        col.unk(R, fi, "_split_branch_equally", f"outside the analysable fragment: {e}", node=fi.node)
+    # ---- (2) _split_long_branches: the loop re-measures the longest sub-branch
+    fi = repo.func(CU, "_split_long_branches")
+    ex = idx.expander(repo, fi)
+    wl = next((n for n in ast.walk(fi.node) if isinstance(n, ast.While)), None)
+    if wl is None or not isinstance(wl.test, ast.Compare) or len(wl.test.comparators) != 1:
+        col.unk(R, fi, "_split_long_branches: splitting loop", "while loop not found", node=fi.node)
+    else:
+        names = [x.id for x in (wl.test.left, wl.test.comparators[0]) if isinstance(x, ast.Name)]
+        lim = [x for x in names if x == "max_branch_len"]
+        var = [x for x in names if x != "max_branch_len"]
+        longer = (isinstance(wl.test.ops[0], (ast.Gt,)) and isinstance(wl.test.left, ast.Name) and wl.test.left.id != "max_branch_len") or \
+                 (isinstance(wl.test.ops[0], (ast.Lt,)) and isinstance(wl.test.left, ast.Name) and wl.test.left.id == "max_branch_len")
+        col.check(bool(lim) and len(var) == 1 and longer, R, fi, "splitting continues while the longest part exceeds max_branch_len",
+                  unparse(wl.test), f"loop condition is `{unparse(wl.test)}`", node=wl)
+        if len(var) == 1:
+            asg = [n for st in wl.body for n in ast.walk(st) if isinstance(n, ast.Assign) and any(isinstance(t, ast.Name) and t.id == var[0] for t in n.targets)]
+            if not asg:
+                col.bad(R, fi, "the length tested by the loop is updated inside the loop", f"`{var[0]}` is never reassigned in the loop", node=wl)
+            else:
+                t = ex.term(asg[-1].value)
+                meas = T.find(t, lambda x: x.op == "call" and x.name == "_compute_pathlengths")
+                from_split = meas is not None and T.find(meas, lambda x: x.op == "call" and x.name == "_split_branch_equally") is not None
+                is_max = T.find(t, lambda x: x.op == "call" and x.name == "max") is not None or \
+                    T.find(t, lambda x: x.op == "mcall" and x.name in ("max", "amax")) is not None
+                col.check(from_split and is_max, R, fi, "the loop tests the MEASURED length of the longest sub-branch",
+                          "max over the path lengths of the parts returned by _split_branch_equally",
+                          f"`{var[0]}` becomes {t.short(100)}: parts are split by number of points, not by length, so their lengths must be "
+                          f"measured (max of _compute_pathlengths of the parts); an estimate such as total/num stops too early when "
+                          f"points are unevenly spaced and leaves branches longer than max_branch_len", node=asg[-1])
+        incs = [n for st in wl.body for n in ast.walk(st) if isinstance(n, ast.AugAssign) and isinstance(n.op, ast.Add)]
+        col.check(any(isinstance(n.value, ast.Constant) and n.value.value == 1 for n in incs), R, fi, "the number of parts grows by one per iteration", "",
+                  "the number of sub-branches is not incremented by one", node=wl)
+    ts = [s_ for s_ in ex.stores if s_.kind == "aug" and T.find(s_.value, lambda x: x.op == "item" and x.name == 1) is not None]
+    ok = bool(ts) and ts[0].value.op == "binop" and ts[0].value.name == "*"
+    col.check(ok, R, fi, "every part inherits the type of its section (type repeated once per part)", "[type] * num_subbranches",
+              f"types are extended by {ts[0].value.short(80) if ts else None}", node=ts[0].node if ts else fi.node)
+    # ---- (3) _build_parents: parent = the branch whose LAST point is this branch's FIRST point
+    fi = repo.func(CU, "_build_parents")
+    ex = idx.expander(repo, fi)
+    vals = []
+    for s_ in ex.stores:
+        if s_.kind == "sub":
+            vals.append((s_.value, s_))
+        elif s_.kind == "mcall" and s_.key.name == "append" and s_.value.op == "mcall" and len(s_.value.args) > 1:
+            vals.append((s_.value.args[1], s_))
+    is_root = lambda v: v.op == "unary" and v.name == "USub" and v.args[0].op == "const" and v.args[0].name == 1
+    st_par = [(v, s_) for v, s_ in vals if not is_root(v) and not (v.op == "const" and v.name is None)]
+    st_root = [(v, s_) for v, s_ in vals if is_root(v)]
+    ok = False
+    detail = None
+    if st_par:
+        v = st_par[0][0]
+        cmp_ = T.find(v, lambda x: x.op == "cmp" and x.name == "==")
+        if cmp_ is not None:
+            def endpoint(t):
+                neg = T.find(t, lambda x: x.op == "sub" and x.args[1].op == "unary" and x.args[1].name == "USub" and x.args[1].args[0].name == 1)
+                zero = T.find(t, lambda x: x.op == "sub" and x.args[1].op == "const" and x.args[1].name == 0 and
+                              T.find(x.args[0], lambda y: y.op == "elem") is not None)
+                return "last" if neg is not None else ("first" if zero is not None else None)
+            ends = {endpoint(cmp_.args[0]), endpoint(cmp_.args[1])}
+            ok = ends == {"last", "first"}
+            detail = f"compares {cmp_.args[0].short(50)} with {cmp_.args[1].short(50)}"
+    if not st_par or detail is None:
+        col.unk(R, fi, "parent of a branch = the branch whose last traced point is this branch's first point", "parent lookup not recognised", node=fi.node)
+    else:
+        col.check(ok, R, fi, "parent of a branch = the branch whose last traced point is this branch's first point",
+                  "all_last_inds == branch[0]", f"parent lookup {detail}", node=st_par[0][1].node)
+    col.check(bool(st_root), R, fi, "a branch without such a predecessor is a root (-1)", "parent -1", "no branch is ever marked as root (-1)",
+              node=fi.node)
+    # ---- (4) sorting: sections and their types are permuted with the same stable order
+    fi = repo.func(CU, "_split_into_branches_and_sort")
+    ex = idx.expander(repo, fi)
+    r = ex.returns[-1] if ex.returns else None
+    if r is None or r.op != "tuple" or len(r.args) != 2:
+        col.unk(R, fi, "_split_into_branches_and_sort returns (branches, types)", "unexpected return", node=fi.node)
+    else:
+        perms = []
+        for a in r.args:
+            a1 = a.args[1] if a.op == "ifexp" else a
+            srt = T.find(a1, lambda x: x.op == "mcall" and x.name == "argsort")
+            perms.append(srt.key() if srt is not None else None)
+        col.check(perms[0] is not None and perms[0] == perms[1], R, fi, "branches and types are reordered by ONE permutation", "same argsort",
+                  "sections and their types are sorted with different permutations: branches get another section's type", node=fi.node)
+        srt = T.find(r.args[0], lambda x: x.op == "mcall" and x.name == "argsort")
+        stable = srt is not None and srt.kw.get("kind") is not None and srt.kw["kind"].op == "const" and srt.kw["kind"].name in ("mergesort", "stable")
+        col.check(stable, R, fi, "the sort is stable (sections starting at the same point keep file order)", "kind='mergesort'",
+                  "argsort is not stable: sibling sections that start at the same branch point may be reordered relative to their types/parents", node=fi.node)
+        key_first = srt is not None and T.find(srt, lambda x: x.op == "sub" and x.args[1].op == "const" and x.args[1].name == 0) is not None
+        col.check(key_first, R, fi, "sort key = first traced point of each section", "b[0]", "sort key altered", node=fi.node)
